@@ -271,6 +271,16 @@ def _slice_form(c, fn, st, gname):
                     problems.append("selects along the sample axis after the delegated read-out")
                 return struct_ob("slice-form", qual(c, fn), not problems, "; ".join(problems), rel, fn.lineno,
                                  slots={"delegates_to": v.func.attr})
+    # delegation of a (samples x parameters) read-out to the per-parameter getter: one column per parameter index, burn / thin handed on,
+    # the (parameters x samples) table transposed
+    if not subs and isinstance(want_store, tuple) and gname == "get_sample":
+        rts = Resolver(fn).return_terms()
+        if len(rts) == 1:
+            for pt in ("array([self.get_parameter(_i, burn=burn, thin=thin) for _i in range(len(self.%s))]).T" % want_store[0],
+                       "array([self.get_parameter(_i, burn, thin) for _i in range(len(self.%s))]).T" % want_store[0],
+                       "column_stack([self.get_parameter(_i, burn=burn, thin=thin) for _i in range(len(self.%s))])" % want_store[0]):
+                if pmatch(rts[0], pt.replace("burn=burn", f"burn={burn}").replace("thin=thin", f"thin={thin}")) is not None:
+                    return struct_ob("slice-form", qual(c, fn), True, "", rel, fn.lineno, slots={"delegates_to": "get_parameter (every index)"})
     if len(subs) != 1:
         problems.append(f"{len(subs)} sliced subscripts (expected exactly one)")
     else:
@@ -283,6 +293,9 @@ def _slice_form(c, fn, st, gname):
         if not (isinstance(sl.step, ast.Name) and sl.step.id == thin):
             problems.append(f"step is `{U(sl.step) if sl.step else None}` not `{thin}`")
         base = n.value
+        while isinstance(base, ast.Call) and isinstance(base.func, ast.Name) and base.func.id in ("array", "asarray") and len(base.args) == 1 \
+                and not base.keywords:
+            base = base.args[0]          # array(self.X)[b::t] holds the entries of array(self.X[b::t])
         if isinstance(want_store, tuple):
             okb = isinstance(base, ast.Attribute) and base.attr == want_store[1] and f"self.{want_store[0]}" in U(fn)
         else:
@@ -325,16 +338,38 @@ def _row_index(sub):
     return U(first), rest_ok
 
 
-def _peel(term, name):
+def _peel(term, name, one_d=False):
     """term = name[i1][i2]...  ->  [text(i1), text(i2), ...]  (row index only; None if it is not such a chain or indexes other axes)"""
     ops = []
     t = term
-    while isinstance(t, ast.Subscript):
-        idx, rest_ok = _row_index(t)
-        if not rest_ok:
-            return None
-        ops.insert(0, str(idx))
-        t = t.value
+    while True:
+        if isinstance(t, ast.Subscript):
+            idx, rest_ok = _row_index(t)
+            if not rest_ok:
+                return None
+            ops.insert(0, str(idx))
+            t = t.value
+            continue
+        if isinstance(t, ast.Call):
+            # X.take(I, axis=0) / take(X, I, axis=0) select rows I; for a one-dimensional X (the log-probabilities) `sort(X)` is
+            # X[X.argsort()] as values
+            f = t.func
+            ax = next((k.value for k in t.keywords if k.arg == "axis"), None)
+            if isinstance(f, ast.Attribute) and f.attr == "take" and len(t.args) >= 1 and (one_d or (ax is not None and U(ax) == "0") or
+                                                                                        (len(t.args) == 2 and U(t.args[1]) == "0")):
+                ops.insert(0, str(U(t.args[0])))
+                t = f.value
+                continue
+            if isinstance(f, ast.Name) and f.id == "take" and len(t.args) >= 2 and (one_d or (ax is not None and U(ax) == "0") or
+                                                                                   (len(t.args) == 3 and U(t.args[2]) == "0")):
+                ops.insert(0, str(U(t.args[1])))
+                t = t.args[0]
+                continue
+            if one_d and isinstance(f, ast.Name) and f.id == "sort" and len(t.args) == 1 and not t.keywords:
+                ops.insert(0, f"{U(t.args[0])}.argsort()")
+                t = t.args[0]
+                continue
+        break
     if isinstance(t, ast.Name) and t.id == name:
         return ops
     return None
@@ -389,7 +424,7 @@ def _parallel(prog, c, fn):
                         problems.append(f"`{name}` is read with {U(vt.func)}")
                     ops[r].append(("get", kw.get("burn", pos[0] if pos else "<default>"), kw.get("thin", pos[1] if len(pos) > 1 else "1")))
                     continue
-                chain = _peel(vt, name)
+                chain = _peel(vt, name, one_d=(r == "probs"))
                 if chain is None:
                     problems.append(f"`{U(st)}` is not a row re-indexing of `{name}`")
                     continue
